@@ -17,6 +17,7 @@ import IrVerif.Drive.Path
 import IrVerif.Drive.Layout
 import IrVerif.Drive.Journal
 import IrVerif.Drive.Serde
+import IrVerif.Drive.SerdeScalar
 import IrVerif.Drive.Scope
 import IrVerif.Drive.ScopeMeta
 import IrVerif.Drive.SymExpr
@@ -33,6 +34,7 @@ def handlers : List Handler := [
   IrVerif.Drive.Scope.handle,
   IrVerif.Drive.ScopeMeta.handle,
   IrVerif.Drive.Serde.handle,
+  IrVerif.Drive.SerdeScalar.handle,
   IrVerif.Drive.Clone.handle,
   IrVerif.Drive.Kernel.handle,
   IrVerif.Drive.Names.handle,
